@@ -62,8 +62,10 @@ theorem add_preserves_mem (s : Img) (M : WFmem s) (i : Nat) (d : RawDesc) (arch 
     (hid : idInUse s.rds (i + 1) = false) (hu : d.used = true) (hdid : d.id = i + 1)
     (hoff : 0 ≤ d.off) (hsz : 0 ≤ d.size) :
     let s1 := commitObject s i d arch ds
-    WFmem { s1 with h := { s1.h with mtime := t } } := by
+    WFmem { s1 with h := { s1.h with mtime := t } } ∧ WFmem s1 := by
   intro s1
+  suffices h : WFmem { s1 with h := { s1.h with mtime := t } } from
+    ⟨h, ⟨h.magic, h.version, h.total, h.doff, h.tabEnd, h.dsize, h.coh, h.acct, h.uniq, h.lo⟩⟩
   have hri : s.rds[i].used = false := by simpa [List.getD, hi] using hfree
   have hl0 : live [s.rds[i]] = [] := by simp [live, hri]
   have hl1 : live [d] = [d] := by simp [live, hu]
